@@ -253,8 +253,9 @@ class Rig:
         self.loop._vt = start_ms / 1000.0
         self.queue = StampQueue(self.loop)
         self.device = EcoMAX(self.queue, NetworkInfo())
-        self.task = None
-        self.reported = False
+        self.tasks = []          # one per set() call, in call order
+        self.reported = set()
+        self.broken = None
         self.device.handle_frame(UIDResponse(sender=DeviceType.ECOMAX, message=bytearray(UID_PAYLOAD)))
         self.loop.settle()
         versions = [(int(REFRESH_TYPE[kind]), 1)] if tracking else [(int(FrameType.REQUEST_ALERTS), 1)]
@@ -262,7 +263,11 @@ class Rig:
         self.loop.settle()
         self.device.handle_frame(report_frame(self.target, initial))
         self.loop.settle()
-        self.param = find_parameter(self.device, self.target)
+        try:
+            self.param = find_parameter(self.device, self.target)
+        except KeyError:
+            self.param = None
+            self.broken = "X:parameter-missing-after-its-first-report"
         self.drain()
         self.loop.hold = hold
 
@@ -295,16 +300,17 @@ class Rig:
                 out.append(f"R:{t}")
             else:
                 out.append(f"X:{type(f).__name__}:{t}")
-        if self.task is not None and self.task.done() and not self.reported:
-            self.reported = True
-            if self.task.cancelled():
-                out.append("X:cancelled")
-            elif self.task.exception() is not None:
-                e = self.task.exception()
-                out.append(f"E:{self.now()}" if isinstance(e, ValueError) else f"X:{type(e).__name__}")
-            else:
-                r = self.task.result()
-                out.append((f"T:{self.now()}" if r is True else f"F:{self.now()}" if r is False else f"X:ret:{r!r}"))
+        for i, task in enumerate(self.tasks):
+            if task.done() and i not in self.reported:
+                self.reported.add(i)
+                if task.cancelled():
+                    out.append(f"X:cancelled:{i}")
+                elif task.exception() is not None:
+                    e = task.exception()
+                    out.append(f"E:{i}:{self.now()}" if isinstance(e, ValueError) else f"X:{type(e).__name__}:{i}")
+                else:
+                    r = task.result()
+                    out.append((f"T:{i}:{self.now()}" if r is True else f"F:{i}:{self.now()}" if r is False else f"X:ret:{r!r}"))
         return out
 
     def show_set(self, f, t):
@@ -319,19 +325,24 @@ class Rig:
 
     def apply(self, ev):
         """apply one event token, return the canonical outputs it produced"""
+        if self.broken:
+            b, self.broken = self.broken, "-"
+            return [b] if b != "-" else []
         p = ev.split(":")
         loop = self.loop
         if p[0] == "c":
-            if self.task is None:
+            if True:
                 v, r, T = int(p[1]), int(p[2]), int(p[3])
-                if self.display is not None:
-                    v = self.display      # the display value whose raw value (Lean: toRaw) is the token's v
-                if self.via_device:
+                k = len(self.tasks)
+                disp = self.display if not isinstance(self.display, list) else (self.display[k] if k < len(self.display) else None)
+                if isinstance(self.display, list) or k == 0:
+                    if disp is not None:
+                        v = disp          # the display value whose raw value (Lean: toRaw) is the token's v
+                if self.via_device and T == 5000:      # Device.set uses Parameter.set's default timeout
                     holder, name = find_holder(self.device, self.target)
-                    assert T == 5000, "Device.set uses Parameter.set's default timeout"
-                    self.task = loop.create_task(holder.set(name, v, retries=r))
+                    self.tasks.append(loop.create_task(holder.set(name, v, retries=r)))
                 else:
-                    self.task = loop.create_task(self.param.set(v, retries=r, timeout=T / 1000.0))
+                    self.tasks.append(loop.create_task(self.param.set(v, retries=r, timeout=T / 1000.0)))
         elif p[0] == "b":
             if loop.held:
                 loop.release(0)
@@ -364,11 +375,18 @@ class Rig:
         elif p[0] == "t":
             nt = loop.next_timer()
             if nt is not None:
+                live = [h._when for h in loop._scheduled if not h._cancelled]
+                if live.count(nt) > 1:
+                    raise Tie(f"two sleeps end at {nt}")
                 loop.settle(until=nt)
         else:
             raise ValueError(ev)
         loop.settle()
         return self.drain()
+
+
+class Tie(Exception):
+    """two timers of overlapping calls are due at the same virtual instant: the order is not the property's business"""
 
 
 def run_history(kind, tracking, hold, initial, events_, start_ms=0, late=False, via_device=False, display=None):
@@ -377,7 +395,9 @@ def run_history(kind, tracking, hold, initial, events_, start_ms=0, late=False, 
     try:
         groups = [rig.apply(e) for e in events_]
         rig.resolve()
+        if rig.param is None:
+            return groups, rig.now(), (-1, -1, -1), False
         vals = rig.param.values
-        return groups, rig.now(), (vals.value, vals.min_value, vals.max_value)
+        return groups, rig.now(), (vals.value, vals.min_value, vals.max_value), bool(rig.param.pending_update)
     finally:
         rig.close()
